@@ -163,6 +163,9 @@ class _SyncCache[**Args, Result]:
             value=result,
             expire=self._next_expire_time(),
         )
+        # the key might be there already (stored by a nested call of the same function) - keeping
+        # its former position would make the most recently used key the first one to evict
+        self._cached.move_to_end(key)
 
         if len(self._cached) > self._limit:
             # if still running let it complete if able
@@ -201,6 +204,9 @@ class _SyncCache[**Args, Result]:
             value=result,  # pyright: ignore[reportUnknownArgumentType]
             expire=self._next_expire_time(),
         )
+        # the key might be there already (stored by a nested call of the same function) - keeping
+        # its former position would make the most recently used key the first one to evict
+        self._cached.move_to_end(key)
         if len(self._cached) > self._limit:
             # if still running let it complete if able
             self._cached.popitem(last=False)
